@@ -541,6 +541,12 @@ FormatterToHTML::characters(
         {
             m_nextIsRaw = false;
 
+            if (m_inScriptElemStack.back() == true ||
+                (m_isRawStack.empty() == false && m_isRawStack.back() == true))
+            {
+                checkRawTextCharacters(chars, length);
+            }
+
             charactersRaw(chars, length);
         }
         else if (m_inScriptElemStack.back() == true)
